@@ -17,6 +17,7 @@ let parse_op (s : string) : op =
   | ["sr"; c; b] -> SinkResult (n c, b = "1")
   | ["sd"; h] -> SetDMX (bytes_of_hex h)
   | ["co"; c; h; p; ts] -> ClientOther (n c, bytes_of_hex h, n p, n ts)
+  | ["ack"; c; k] -> AckClient (n c, n k)
   | ["ao"; i] -> AddOutput (n i) | ["ro"; i] -> RemoveOutput (n i)
   | ["ak"; c] -> AddSink (n c) | ["rk"; c] -> RemoveSink (n c)
   | ["pp"; i; p] -> SetPortPrio (n i, n p)
@@ -44,12 +45,16 @@ let handle (p : string) : string =
   Buffer.add_string b (Printf.sprintf "init=%s/%d/%d/%s/%d/%s;" (bool01 init_world.w_u.u_ltp)
     (int_of_n init_world.w_u.u_prio) (int_of_n np.p_static) (bool01 np.p_inherit) (int_of_n np.p_inherited)
     (bool01 np.p_caps));
-  let w = ref init_world in
+  let ww = ref (init_world, init_world) in      (* the two universes; "@" ops go to the second *)
+  let two = String.contains p '@' in
   let kinds = ref SS.empty in
   let k = ref 0 in
   List.iter (fun tok ->
-    if tok <> "" then begin
+    if tok <> "" && tok <> "rc" then begin
+      let second = tok.[0] = '@' in
+      let tok = if second then String.sub tok 1 (String.length tok - 1) else tok in
       let o = parse_op tok in
+      let w = ref (if second then snd !ww else fst !ww) in
       (match apply_update !w o with
        | Some ((chg, now), w1) ->
          let a = scan now chg w1 in
@@ -64,10 +69,14 @@ let handle (p : string) : string =
            else (if nact = 2 then "htp2" else "htp3+") in
          kinds := SS.add kind !kinds
        | None -> ());
-      let (w2, evs) = step !w o in
-      w := w2;
+      let (ww2, evs) = step2 !ww (if second then On2 o else On1 o) in
+      ww := ww2;
+      let w2 = if second then snd ww2 else fst ww2 in
+      let other = if second then fst ww2 else snd ww2 in
       let u = w2.w_u in
-      Buffer.add_string b (Printf.sprintf "b%d=%s;p%d=%d;e%d=%s;m%d=%s/%s/%s/%s;" !k (hex_of_bytes u.u_buf)
+      Buffer.add_string b (Printf.sprintf "b%d=%s;" !k (hex_of_bytes u.u_buf));
+      if two then Buffer.add_string b (Printf.sprintf "bo%d=%s;" !k (hex_of_bytes other.w_u.u_buf));
+      Buffer.add_string b (Printf.sprintf "p%d=%d;e%d=%s;m%d=%s/%s/%s/%s;"
         !k (int_of_n u.u_prio) !k
         (if evs = [] then "-" else String.concat "," (List.map (ev_s u.u_buf) evs))
         !k (nl u.u_inputs)
@@ -85,6 +94,8 @@ let handle (p : string) : string =
      else if has "ltpnewest" then "ltp-newest" else "-") ^ "/" ^
     (if has "nolive" || has "dead" || has "lowprio" then "rejects" else "-") ^ "/" ^
     (if has "single" then "single" else "-") in
+  let cls = (if String.length p > 2 && String.sub p 0 3 = "rc " then "real-clients:" else "") ^
+            (if two then "2uni:" else "") ^ cls in
   Buffer.add_string b ("class=" ^ cls);
   Buffer.contents b
 let () = vh_run handle
